@@ -19,7 +19,7 @@ LEVEL = 'fault_enumeration'
 RULE = ('fault enumeration: first frame x second frame over {2probe, 2, 2x, '
         '3probe, 4hi, 5, 5x, x, empty, binary 2probe, oversize, 8x oversize} x '
         'closure point {before probe, after first frame, after second frame, '
-        'never} x peer-closure convention {wait() returns None, wait() raises} '
+        'never, server writes fail} x peer-closure convention {wait() returns None, wait() raises} '
         'x concurrent activity {none, pending poll, queued send, send during '
         'the handshake, all} x allow_upgrades x transports {both, polling, '
         'websocket} x server(2); cells with concurrent activity additionally under '
@@ -41,7 +41,7 @@ SHARD_TIMEOUT = {'quick': 400, 'thorough': 3000}
 MAXB = 1000
 FRAMES = ['2probe', '2', '2x', '3probe', '4hi', '5', '5x', 'x', '',
           'bin:2probe', 'over', 'over8']
-CLOSE_AT = ['before', 'after1', 'after2', 'never']
+CLOSE_AT = ['before', 'after1', 'after2', 'never', 'writes-fail']
 CONC = ['none', 'poll', 'queued', 'during', 'all']
 CONV = ['none', 'raise']
 AU = [True, False]
@@ -194,6 +194,10 @@ def _run(rec, sim, R, V, f1, f2, cl, conc, au, tr, srv):
     probed = False
     closed = False
     # step 1
+    if cl == 'writes-fail':
+        # transport fault: every write of the server on this socket fails
+        # (the probe answer cannot be sent); reads still work
+        ws.send_fails = True
     if cl == 'before':
         ws.close()
         closed = True
@@ -323,7 +327,7 @@ def _run(rec, sim, R, V, f1, f2, cl, conc, au, tr, srv):
 
 def plan(tier, seed):
     rng = gen.mkrng('c06', seed)
-    dims = [len(FRAMES), len(FRAMES), 4, 2, len(CONC), 2, 3, 2]
+    dims = [len(FRAMES), len(FRAMES), len(CLOSE_AT), 2, len(CONC), 2, 3, 2]
     allc = list(itertools.product(*[range(n) for n in dims]))
     if tier == 'thorough':
         chosen = allc
